@@ -3,8 +3,10 @@
   * the 7 + 9 bit type/length word of a TLV (`tlv_pack_toNat`, `tlv_lane`);
   * wire forms `tlvWire` (Chassis / Port TLV) and `ttlWire` (TTL TLV) and what `ChassisTLV/PortTLV.Write`,
     `TTLTLV.Write` make of them (`tlv_write_ok`, `tlv_write_short`, `ttl_write_ok`);
-  * `LLDP.Write` on three Chassis-format TLVs in a row (`lldp_write_three`) — it parses Chassis, Port, Chassis;
-  * `LLDP.Read` on a buffer that is long enough (`lldp_read_long`).
+  * `LLDP.Write` on a frame Chassis ++ Port ++ TTL (`lldp_write_frame`), and on one cut inside the TTL TLV
+    (`lldp_write_ttl_short`);
+  * `LLDP.Read` is `copy(b, Chassis ++ Port ++ TTL)` for every buffer (`lldp_read_copy`, `copyInto_append`), in particular
+    on a buffer that is long enough (`lldp_read_long`).
 -/
 import OFV.Model.Proto
 import OFV.Lemmas.LaneBits
@@ -91,65 +93,66 @@ theorem ttl_write_ok (ty ln secs : Nat) (tail : Bytes) (r1 r2 r3 : V) (h1 : ty <
   simp only [be16_cells, List.cons_append, List.nil_append, be16_toNat, UInt16.ofNat_toNat, l1, l2, n16_toNat secs h3,
     u8_n8 ty (by omega), u16_n16 ln (by omega)]
 
-/-- `LLDP.Write` on three Chassis-format TLVs in a row: the first goes to Chassis, the second to Port, the third to
-    Chassis AGAIN (overwriting the first); the TTL field keeps the receiver's value -/
-theorem lldp_write_three (c1 c2 c3 c4 p1 p2 p3 p4 ttl : V) (ty ln st : Nat) (d : Bytes) (ty' ln' st' : Nat) (d' : Bytes)
-    (ty2 ln2 st2 : Nat) (d2 tail : Bytes)
+/-- `TTLTLV.Write` on fewer than 4 bytes: an error (after 0 or 2 bytes) -/
+theorem ttl_write_short (r1 r2 r3 : V) (b : Bytes) (h : b.length < 4) :
+    ∃ n w, PTLV.ttlWrite (.obj "p.TTLTLV" [r1, r2, r3]) b = .ok (n, true, w) := by
+  unfold PTLV.ttlWrite
+  match b, h with
+  | [], _ => exact ⟨_, _, rfl⟩
+  | [_], _ => exact ⟨_, _, rfl⟩
+  | [_, _], _ => exact ⟨_, _, rfl⟩
+  | [_, _, _], _ => exact ⟨_, _, rfl⟩
+
+/-- `LLDP.Write` on a frame — Chassis TLV, Port TLV, TTL TLV in a row, whatever follows: the three TLVs come back in
+    their fields, and the byte count is the sum of the three -/
+theorem lldp_write_frame (c1 c2 c3 c4 p1 p2 p3 p4 t1 t2 t3 : V) (ty ln st : Nat) (d : Bytes) (ty' ln' st' : Nat) (d' : Bytes)
+    (t3' l3 secs : Nat) (tail : Bytes)
     (h1 : ty < 128) (h2 : ln < 512) (h3 : st < 256) (h4 : d.length = ln)
     (g1 : ty' < 128) (g2 : ln' < 512) (g3 : st' < 256) (g4 : d'.length = ln')
-    (k1 : ty2 < 128) (k2 : ln2 < 512) (k3 : st2 < 256) (k4 : d2.length = ln2) :
-    PLLDP.write (.obj "p.LLDP" [.obj "p.ChassisTLV" [c1, c2, c3, c4], .obj "p.PortTLV" [p1, p2, p3, p4], ttl])
-        (tlvWire ty ln st d ++ (tlvWire ty' ln' st' d' ++ (tlvWire ty2 ln2 st2 d2 ++ tail)))
-      = .ok (.obj "p.LLDP" [.obj "p.ChassisTLV" [.num ty2, .num ln2, .num st2, .bytes d2],
-          .obj "p.PortTLV" [.num ty', .num ln', .num st', .bytes d'], ttl], (3 + ln) + (3 + ln') + (3 + ln2)) := by
+    (k1 : t3' < 128) (k2 : l3 < 512) (k3 : secs < 65536) :
+    PLLDP.write (.obj "p.LLDP" [.obj "p.ChassisTLV" [c1, c2, c3, c4], .obj "p.PortTLV" [p1, p2, p3, p4],
+          .obj "p.TTLTLV" [t1, t2, t3]])
+        (tlvWire ty ln st d ++ (tlvWire ty' ln' st' d' ++ (ttlWire t3' l3 secs ++ tail)))
+      = .ok (.obj "p.LLDP" [.obj "p.ChassisTLV" [.num ty, .num ln, .num st, .bytes d],
+          .obj "p.PortTLV" [.num ty', .num ln', .num st', .bytes d'], .obj "p.TTLTLV" [.num t3', .num l3, .num secs]],
+          (3 + ln) + (3 + ln') + 4) := by
   unfold PLLDP.write
   simp only [tlv_write_ok "p.ChassisTLV" ty ln st d _ c1 c2 c3 c4 h1 h2 h3 h4, Res.bind_ok]
   rw [if_neg (by omega)]
-  have e1 : List.drop (3 + ln) (tlvWire ty ln st d ++ (tlvWire ty' ln' st' d' ++ (tlvWire ty2 ln2 st2 d2 ++ tail)))
-      = tlvWire ty' ln' st' d' ++ (tlvWire ty2 ln2 st2 d2 ++ tail) :=
+  have e1 : List.drop (3 + ln) (tlvWire ty ln st d ++ (tlvWire ty' ln' st' d' ++ (ttlWire t3' l3 secs ++ tail)))
+      = tlvWire ty' ln' st' d' ++ (ttlWire t3' l3 secs ++ tail) :=
     List.drop_left' (by rw [tlvWire_length, h4])
-  have e2 : List.drop (3 + ln + (3 + ln')) (tlvWire ty ln st d ++ (tlvWire ty' ln' st' d' ++ (tlvWire ty2 ln2 st2 d2 ++ tail)))
-      = tlvWire ty2 ln2 st2 d2 ++ tail := by
+  have e2 : List.drop (3 + ln + (3 + ln')) (tlvWire ty ln st d ++ (tlvWire ty' ln' st' d' ++ (ttlWire t3' l3 secs ++ tail)))
+      = ttlWire t3' l3 secs ++ tail := by
     rw [← List.drop_drop, e1]
     exact List.drop_left' (by rw [tlvWire_length, g4])
   simp only [e1, tlv_write_ok "p.PortTLV" ty' ln' st' d' _ p1 p2 p3 p4 g1 g2 g3 g4, Res.bind_ok]
   rw [if_neg (by omega)]
-  simp only [e2, tlv_write_ok "p.ChassisTLV" ty2 ln2 st2 d2 _ _ _ _ _ k1 k2 k3 k4, Res.bind_ok]
+  simp only [e2, ttl_write_ok t3' l3 secs tail t1 t2 t3 k1 k2 k3, Res.bind_ok]
   rfl
 
-/-- … and when the third TLV is cut short (fewer data bytes than its length field says): an error -/
-theorem lldp_write_third_short (c1 c2 c3 c4 p1 p2 p3 p4 ttl : V) (ty ln st : Nat) (d : Bytes) (ty' ln' st' : Nat) (d' : Bytes)
-    (ty2 ln2 st2 : Nat) (d2 : Bytes)
+/-- … and when fewer than 4 bytes are left for the TTL TLV (a frame cut inside its last TLV): an error -/
+theorem lldp_write_ttl_short (c1 c2 c3 c4 p1 p2 p3 p4 t1 t2 t3 : V) (ty ln st : Nat) (d : Bytes) (ty' ln' st' : Nat)
+    (d' rest : Bytes)
     (h1 : ty < 128) (h2 : ln < 512) (h3 : st < 256) (h4 : d.length = ln)
-    (g1 : ty' < 128) (g2 : ln' < 512) (g3 : st' < 256) (g4 : d'.length = ln')
-    (k1 : ty2 < 128) (k2 : ln2 < 512) (k3 : st2 < 256) (k4 : d2.length < ln2) :
-    PLLDP.write (.obj "p.LLDP" [.obj "p.ChassisTLV" [c1, c2, c3, c4], .obj "p.PortTLV" [p1, p2, p3, p4], ttl])
-        (tlvWire ty ln st d ++ (tlvWire ty' ln' st' d' ++ tlvWire ty2 ln2 st2 d2)) = .err := by
+    (g1 : ty' < 128) (g2 : ln' < 512) (g3 : st' < 256) (g4 : d'.length = ln') (hr : rest.length < 4) :
+    PLLDP.write (.obj "p.LLDP" [.obj "p.ChassisTLV" [c1, c2, c3, c4], .obj "p.PortTLV" [p1, p2, p3, p4],
+          .obj "p.TTLTLV" [t1, t2, t3]])
+        (tlvWire ty ln st d ++ (tlvWire ty' ln' st' d' ++ rest)) = .err := by
   unfold PLLDP.write
   simp only [tlv_write_ok "p.ChassisTLV" ty ln st d _ c1 c2 c3 c4 h1 h2 h3 h4, Res.bind_ok]
   rw [if_neg (by omega)]
-  have e1 : List.drop (3 + ln) (tlvWire ty ln st d ++ (tlvWire ty' ln' st' d' ++ tlvWire ty2 ln2 st2 d2))
-      = tlvWire ty' ln' st' d' ++ tlvWire ty2 ln2 st2 d2 :=
+  have e1 : List.drop (3 + ln) (tlvWire ty ln st d ++ (tlvWire ty' ln' st' d' ++ rest))
+      = tlvWire ty' ln' st' d' ++ rest :=
     List.drop_left' (by rw [tlvWire_length, h4])
-  have e2 : List.drop (3 + ln + (3 + ln')) (tlvWire ty ln st d ++ (tlvWire ty' ln' st' d' ++ tlvWire ty2 ln2 st2 d2))
-      = tlvWire ty2 ln2 st2 d2 := by
+  have e2 : List.drop (3 + ln + (3 + ln')) (tlvWire ty ln st d ++ (tlvWire ty' ln' st' d' ++ rest)) = rest := by
     rw [← List.drop_drop, e1]
     exact List.drop_left' (by rw [tlvWire_length, g4])
   simp only [e1, tlv_write_ok "p.PortTLV" ty' ln' st' d' _ p1 p2 p3 p4 g1 g2 g3 g4, Res.bind_ok]
   rw [if_neg (by omega)]
-  simp only [e2, tlv_write_short "p.ChassisTLV" ty2 ln2 st2 d2 _ _ _ _ k1 k2 k3 k4, Res.bind_ok]
+  obtain ⟨n, w, hw⟩ := ttl_write_short t1 t2 t3 rest hr
+  simp only [e2, hw, Res.bind_ok]
   rfl
-
-/-- a TTL TLV (type 3, length 2) followed by the two zero bytes of an End-of-LLDPDU TLV reads, as a Chassis-format
-    TLV, as: type 3, length 2, subtype = high byte of the seconds, data = low byte of the seconds and one zero -/
-theorem ttl_as_chassis (secs : Nat) (tail : Bytes) :
-    ttlWire 3 2 secs ++ (0 :: 0 :: tail) = tlvWire 3 2 ((n16 secs).toNat / 256) [lo16 (n16 secs), 0] ++ (0 :: tail) := by
-  simp only [ttlWire, tlvWire, be16_cells, List.cons_append, List.nil_append, hi16, n8]
-
-/-- … and without anything behind it, as a Chassis-format TLV that is one data byte short -/
-theorem ttl_as_chassis_short (secs : Nat) :
-    ttlWire 3 2 secs = tlvWire 3 2 ((n16 secs).toNat / 256) [lo16 (n16 secs)] := by
-  simp only [ttlWire, tlvWire, be16_cells, List.cons_append, List.nil_append, hi16, n8]
 
 /-- equal byte counts give equal results -/
 theorem ok_count (X : V) (a b : Nat) (h : a = b) : (Res.ok (X, a) : R (V × Nat)) = .ok (X, b) := by rw [h]
@@ -158,18 +161,84 @@ theorem ok_count (X : V) (a b : Nat) (h : a = b) : (Res.ok (X, a) : R (V × Nat)
 theorem copyInto_prefix (dst src : Bytes) (h : src.length ≤ dst.length) : copyInto dst src = src ++ dst.drop src.length := by
   simp [copyInto, List.take_of_length_le h]
 
-/-- `LLDP.Read` into a buffer that holds either TLV: Chassis, Port and Chassis again are each copied to the START of
-    the buffer, and the byte count is the sum of the three -/
-theorem lldp_read_long (ty ln st : Nat) (d : Bytes) (ty' ln' st' : Nat) (d' : Bytes) (ttl : V) (b : Bytes)
-    (h1 : 3 + d.length ≤ b.length) (h2 : 3 + d'.length ≤ b.length) :
-    PLLDP.read (.obj "p.LLDP" [.obj "p.ChassisTLV" [.num ty, .num ln, .num st, .bytes d],
-        .obj "p.PortTLV" [.num ty', .num ln', .num st', .bytes d'], ttl]) b
-      = .ok (copyInto (copyInto (copyInto b (tlvWire ty ln st d)) (tlvWire ty' ln' st' d')) (tlvWire ty ln st d),
-          (3 + d.length) + (3 + d'.length) + (3 + d.length)) := by
-  have r1 : PTLV.readBuf "p.ChassisTLV" (.obj "p.ChassisTLV" [.num ty, .num ln, .num st, .bytes d]) = .ok (tlvWire ty ln st d) := rfl
-  have r2 : PTLV.readBuf "p.PortTLV" (.obj "p.PortTLV" [.num ty', .num ln', .num st', .bytes d']) = .ok (tlvWire ty' ln' st' d') := rfl
+/-- `copy(dst, src)` into an empty destination copies nothing -/
+theorem copyInto_nil (src : Bytes) : copyInto [] src = [] := by simp [copyInto]
+
+/-- copying `x ++ y` = copying `x`, then copying `y` into what is left of the destination behind the `min |dst| |x|`
+    bytes the first copy wrote — the step `LLDP.Read` makes from one TLV to the next -/
+theorem copyInto_append (dst x y : Bytes) :
+    copyInto dst (x ++ y)
+      = (copyInto dst x).take (min dst.length x.length) ++ copyInto ((copyInto dst x).drop (min dst.length x.length)) y := by
+  by_cases h : x.length ≤ dst.length
+  · rw [copyInto_prefix dst x h, Nat.min_eq_right h, take_prefix _ x _ rfl, List.drop_left' rfl]
+    simp only [copyInto, List.take_append, List.length_drop, List.take_of_length_le h, List.length_append, List.drop_drop,
+      List.append_assoc]
+  · have h' : dst.length ≤ x.length := by omega
+    have e : copyInto dst x = x.take dst.length := by
+      simp [copyInto, List.drop_eq_nil_of_le h']
+    rw [e, Nat.min_eq_left h', List.take_take, Nat.min_self,
+      List.drop_eq_nil_of_le (by rw [List.length_take]; omega), copyInto_nil, List.append_nil]
+    simp only [copyInto, List.take_append, List.length_append]
+    rw [List.drop_eq_nil_of_le (by omega), List.append_nil, show dst.length - x.length = 0 by omega, List.take_zero,
+      List.append_nil]
+
+/-- `LLDP.Read(b)` is `copy(b, chassis bytes ++ port bytes ++ ttl bytes)`, for a buffer of ANY length: the three TLVs
+    are written one behind the other, cut where the buffer ends, and the count is the number of bytes that fitted
+    (the two TLV encodings in front are never empty, so the early exits of `Read` agree with this) -/
+theorem lldp_read_copy (ch pt ttl : V) (cb pb tb b : Bytes)
+    (r1 : PTLV.readBuf "p.ChassisTLV" ch = .ok cb) (r2 : PTLV.readBuf "p.PortTLV" pt = .ok pb)
+    (r3 : PTLV.ttlReadBuf ttl = .ok tb) (hc : 0 < cb.length) (hp : 0 < pb.length) :
+    PLLDP.read (.obj "p.LLDP" [ch, pt, ttl]) b
+      = .ok (copyInto b (cb ++ (pb ++ tb)), min b.length (cb.length + pb.length + tb.length)) := by
   unfold PLLDP.read
-  simp only [r1, r2, Res.bind_ok, tlvWire_length, Nat.min_eq_right h1, Nat.min_eq_right h2]
-  rw [if_neg (by omega), if_neg (by omega)]
+  simp only [r1, Res.bind_ok]
+  have hl1 : (copyInto b cb).length = b.length := copyInto_length b cb
+  by_cases hm : min b.length cb.length = 0
+  · rw [if_pos hm]
+    have hb : b = [] := List.eq_nil_of_length_eq_zero (by omega)
+    subst hb
+    simp [copyInto_nil]
+  · rw [if_neg hm]
+    simp only [r2, Res.bind_ok]
+    rw [copyInto_append b cb (pb ++ tb)]
+    by_cases ho : min (b.length - min b.length cb.length) pb.length = 0
+    · rw [if_pos ho]
+      have hd : (copyInto b cb).drop (min b.length cb.length) = [] :=
+        List.drop_eq_nil_of_le (by rw [hl1]; omega)
+      rw [hd, copyInto_nil, copyInto_nil]
+      congr 2
+      omega
+    · rw [if_neg ho]
+      simp only [r3, Res.bind_ok]
+      obtain ⟨m, hmm⟩ : ∃ m, m = min b.length cb.length := ⟨_, rfl⟩
+      obtain ⟨b1, hb1⟩ : ∃ b1, b1 = copyInto b cb := ⟨_, rfl⟩
+      rw [← hmm] at ho ⊢
+      rw [← hb1]
+      rw [← hb1] at hl1
+      have hl2 : (b1.drop m).length = b.length - m := by rw [List.length_drop, hl1]
+      have hlt : (b1.take m).length = m := by rw [List.length_take, hl1]; omega
+      rw [copyInto_append (b1.drop m) pb tb, hl2]
+      obtain ⟨o, hoo⟩ : ∃ o, o = min (b.length - m) pb.length := ⟨_, rfl⟩
+      obtain ⟨X, hX⟩ : ∃ X, X = copyInto (b1.drop m) pb := ⟨_, rfl⟩
+      rw [← hoo] at ho ⊢
+      rw [← hX]
+      have hlX : X.length = b.length - m := by rw [hX, copyInto_length, hl2]
+      have e1 : (b1.take m ++ X).take (m + o) = b1.take m ++ X.take o := by
+        rw [List.take_append, hlt, List.take_of_length_le (by omega), Nat.add_sub_cancel_left]
+      have e2 : (b1.take m ++ X).drop (m + o) = X.drop o := by
+        rw [List.drop_append, hlt, List.drop_eq_nil_of_le (by omega), Nat.add_sub_cancel_left, List.nil_append]
+      rw [e1, e2, List.append_assoc]
+      congr 2
+      omega
+
+/-- … into a buffer that holds the whole frame: the frame, then the untouched rest of the buffer; count = frame size -/
+theorem lldp_read_long (ch pt ttl : V) (cb pb tb b : Bytes)
+    (r1 : PTLV.readBuf "p.ChassisTLV" ch = .ok cb) (r2 : PTLV.readBuf "p.PortTLV" pt = .ok pb)
+    (r3 : PTLV.ttlReadBuf ttl = .ok tb) (hc : 0 < cb.length) (hp : 0 < pb.length)
+    (hb : cb.length + pb.length + tb.length ≤ b.length) :
+    PLLDP.read (.obj "p.LLDP" [ch, pt, ttl]) b
+      = .ok (cb ++ (pb ++ tb) ++ b.drop (cb.length + pb.length + tb.length), cb.length + pb.length + tb.length) := by
+  rw [lldp_read_copy ch pt ttl cb pb tb b r1 r2 r3 hc hp, copyInto_prefix _ _ (by simp; omega), Nat.min_eq_right hb]
+  simp [Nat.add_assoc]
 
 end OFV.Lemmas.RT
